@@ -201,5 +201,14 @@ CLAIMED["C17"]["technique"] += "; who-may-write rule on the per-value metadata i
 CLAIMED["C18"]["technique"] += "; who-may-call rule on the unsafe builder completions; def-use rule on pointers to a builder's block"
 CLAIMED["C19"]["technique"] += "; signature rule: the coercion site of unsize! is raw-pointer to raw-pointer (+ Deref-coercion rejection witnesses)"
 
+CLAIMED["C04"]["technique"] += "; CFG rule: a value handed to an allocation entry is moved into the block on every path not dominated by the false edge of needs_drop::<T>()"
+CLAIMED["C11"]["technique"] += "; CFG dominance rule: the sweep cursor is stored before every call that switches the phase to Sweep; def-use rule on block exposure after a builder is disarmed"
+CLAIMED["C12"]["technique"] += ("; predicate rule on every arena constructor (root Collect for every brand); ADT rule: Arena is not a built-in "
+                                "unsizing target (root parameter occurs outside the last field)")
+CLAIMED["C13"]["technique"] += "; rejection witnesses for the Collect-implementing macros applied to sized types"
+CLAIMED["C18"]["technique"] += "; variance rule (compiler's variances_of): every builder is invariant in its value type; drop-order rule on builder types"
+CLAIMED["C19"]["technique"] += "; trait rule: traits whose results the library dereferences unchecked are unsafe traits; Gc values are built only from carrier constructors"
+
 NOTES += (" Repairs of genuine defects in /repo (unguarded `fix:` commits, each minimal, the unedited suite passes with each): "
-          "cddd983, 96d609a, f123ef0, 4330406; see known_findings.json (five `fixed:` entries, no open finding) and DESIGN.md section 5.")
+          "cddd983, 96d609a, f123ef0, 4330406, 91603c3, 40fcb09, 1f3a763, fa7262c, de7ddba, cf49bbc; see known_findings.json "
+          "(eleven `fixed:` entries; one open finding, F11 under C12, reported as a KNOWN-FINDING line with exit 0) and DESIGN.md section 5.")
